@@ -111,6 +111,22 @@ func tokenize(s string) ([]token, error) {
 		c, l := utf8.DecodeRuneInString(s[i:])
 
 		switch {
+		case strings.HasPrefix(s[i:], "--"):
+			// a comment, to the end of the line
+			n := strings.IndexByte(s[i:], '\n')
+			if n < 0 {
+				return res, nil
+			}
+			i += n + 1
+			continue
+		case strings.HasPrefix(s[i:], "/*"):
+			// a comment, to the closing */ (or the end of the text)
+			n := strings.Index(s[i+2:], "*/")
+			if n < 0 {
+				return res, nil
+			}
+			i += 2 + n + 2
+			continue
 		case isSpace(c):
 			// ignore
 		case isWordStart(c):
